@@ -247,6 +247,9 @@ class YPPrologVisitor(prologVisitor):
 
     def visitClause(self,ctx):
         lhs = self.visitSimplepredicate(ctx.simplepredicate())
+        # the name becomes part of a Python function name
+        if isinstance(lhs, Predicate) and not re.fullmatch(r'[A-Za-z_][A-Za-z0-9_]*', lhs.name()):
+            raise CompilerError(getattr(self.context, 'current_source_file', ''), ctx.simplepredicate(), f"{lhs.name()!r} cannot be used as the name of a predicate definition")
         if ctx.predicateexpression():
             rhs = self.visitPredicateexpression(ctx.predicateexpression())
         else:
